@@ -154,10 +154,10 @@ def check_C09_local(b, A):
     try:
         ins = x86mnemo.dis(b)
     except Exception:
-        return res, None, None
+        return res, None, None, None
     if ins is None or ins.l != len(b):
-        return res, None, None
-    ti = ta = None
+        return res, None, None, None
+    ti = ta = to = None
     try:
         ti = str(ins).strip()
     except Exception:
@@ -175,7 +175,19 @@ def check_C09_local(b, A):
         c, _ = safe_asm(ta, True)
         if c is None or b not in c:
             res.append(('att-parse', key, '%s renders (AT&T) as %r, which assembles to %s' % (b.hex(), ta, [x.hex() for x in (c or [])][:4] if c is not None else 'an error')))
-    return res, ti, ta
+        # the 'objdump' immediate-format variant of the AT&T rendering (hexadecimal numbers, suffix only where needed)
+        try:
+            to = ins.__str__('att_syntax objdump').strip()
+        except Exception:
+            to = None
+        # asm_att has no size inference from registers (documented TODO): the objdump format is fed back to it only when it keeps the
+        # mnemonic of the binutils format; GNU as gets every objdump-format line (driver)
+        mnem = lambda t: re.match(r'^((?:lock |repn?[ze]? |rep |notrack )*)(\S+)', t).group(2)
+        if to is not None and to != ta and mnem(to) == mnem(ta):
+            c2, _ = safe_asm(to, True)
+            if (c2 is None or b not in c2) and not (c is None or b not in c):
+                res.append(('att-objdump-parse', key, '%s renders (AT&T, objdump format) as %r, which assembles to %s although the binutils format %r assembles back' % (b.hex(), to, [x.hex() for x in (c2 or [])][:4] if c2 is not None else 'an error', ta)))
+    return res, ti, ta, to if ta is not None else None
 
 def spellings(A):
     """presentation-only rewrites of the Intel line of A: list of (tag, text, att?)"""
@@ -282,7 +294,7 @@ def _work(job):
     def fail(clause, key, wit, msg):
         g = out['groups'].setdefault((clause, key), [0, wit, msg])
         g[0] += 1
-    pend_i, pend_a = [], []
+    pend_i, pend_a, pend_o = [], [], []
     for b, A in items:
         out['n'] += 1
         key = '%s %s' % (A['mnem'], opsig(A))
@@ -291,11 +303,12 @@ def _work(job):
             elif prop == 'C03': r = check_C03(b, A, canonical.get(b, False))
             elif prop == 'C19': r = check_C19(b, A)
             else:
-                r, ti, ta = check_C09_local(b, A)
+                r, ti, ta, to = check_C09_local(b, A)
                 plain = not any(o[0] in ('rel', 'far') or (o[0] == 'mem' and o[1] is None and o[2] is None) for o in A['ops'])
                 if plain and canonical.get(b, False):
                     if ti is not None: pend_i.append((b, A, ti))
                     if ta is not None: pend_a.append((b, A, ta))
+                    if to is not None and to != ta: pend_o.append((b, A, to))
         except Exception:
             r = [('checker-crash', 'crash', traceback.format_exc()[-300:])]
         if not r: out['ok'] += 1
@@ -303,8 +316,8 @@ def _work(job):
             fail(clause, key if prop != 'C09' else k2, {'bytes': b.hex(), 'A': A}, msg)
     if prop == 'C09':
         # external function: the real GNU as, both syntax modes, one invocation per batch
-        for pend, syn in ((pend_i, 'intel'), (pend_a, 'att')):
-            enc = asmgen.gnu_as([t for (_, _, t) in pend], syn)
+        for pend, syn in ((pend_i, 'intel'), (pend_a, 'att'), (pend_o, 'att-objdump')):
+            enc = asmgen.gnu_as([t for (_, _, t) in pend], 'att' if syn.startswith('att') else syn)
             out['gas_lines'] += len(pend)
             for (b, A, t), e in zip(pend, enc):
                 if e is None:
